@@ -105,6 +105,140 @@ pub fn fold(req: &J) -> J {
     json!({"class": "ok", "results": out})
 }
 
+/// The library's view of one byte string: (kinds, bytes) per offset, or the error it was rejected with.
+fn lib_kinds(code: &[u8]) -> Result<(Vec<u8>, Vec<u8>, Vec<u8>), String> {
+    let stream = InstructionStream::try_from(code).map_err(|e| format!("{:?}@{}", e.payload, e.location))?;
+    let re = stream.as_bytecode();
+    let thread = stream.new_thread(0).map_err(|e| format!("{:?}@{}", e.payload, e.location))?;
+    let mut kinds = Vec::with_capacity(code.len());
+    let mut bytes = Vec::with_capacity(code.len());
+    let mut i = 0u32;
+    while let Some(op) = thread.instruction(i) {
+        let text = op.as_text_code();
+        let k = if text == "NOP" {
+            b'N'
+        } else if op.as_any().is::<JumpDest>() {
+            b'J'
+        } else if text.starts_with("INVALID") {
+            b'I'
+        } else if text.starts_with("PUSH") && text != "PUSH0" {
+            b'P'
+        } else {
+            b'O'
+        };
+        kinds.push(k);
+        bytes.push(if k == b'N' { 0 } else { op.as_byte() });
+        i += 1;
+    }
+    Ok((kinds, bytes, re))
+}
+
+/// The driver's own reference disassembly (same rules as vlib/evm.py::disasm_ref; `assigned` comes from the Python
+/// opcode table so that there is one source of truth).
+fn ref_kinds(code: &[u8], assigned: &[bool; 256]) -> Vec<u8> {
+    let n = code.len();
+    let mut kinds = vec![0u8; n];
+    let mut i = 0;
+    while i < n {
+        let b = code[i];
+        if (0x60..=0x7f).contains(&b) {
+            let k = (b - 0x5f) as usize;
+            if i + k < n {
+                kinds[i] = b'P';
+                for x in kinds.iter_mut().take(i + 1 + k).skip(i + 1) {
+                    *x = b'N';
+                }
+                i += k + 1;
+            } else {
+                for x in kinds.iter_mut().skip(i) {
+                    *x = b'T';
+                }
+                break;
+            }
+        } else if b == 0x5b {
+            kinds[i] = b'J';
+            i += 1;
+        } else if assigned[b as usize] && b != 0xfe {
+            kinds[i] = b'O';
+            i += 1;
+        } else {
+            kinds[i] = b'I';
+            i += 1;
+        }
+    }
+    kinds
+}
+
+/// Enumerates prefix ++ (every string of `tail` bytes whose first byte lies in [lo, hi)) ++ suffix, disassembles each
+/// with the library and compares with the reference, entirely inside the driver.
+pub fn disasm_sweep(req: &J) -> J {
+    let hexf = |k: &str| hex::decode(req.get(k).and_then(J::as_str).unwrap_or("")).unwrap_or_default();
+    let prefix = hexf("prefix");
+    let suffix = hexf("suffix");
+    let tail = req.get("tail").and_then(J::as_u64).unwrap_or(2) as usize;
+    let lo = req.get("lo").and_then(J::as_u64).unwrap_or(0);
+    let hi = req.get("hi").and_then(J::as_u64).unwrap_or(256);
+    let mask = hexf("assigned");
+    if mask.len() != 32 || tail == 0 || tail > 3 {
+        return json!({"class": "harness_error", "msg": "disasm_sweep needs assigned (32 bytes) and 1 <= tail <= 3"});
+    }
+    let mut assigned = [false; 256];
+    for (b, slot) in assigned.iter_mut().enumerate() {
+        *slot = mask[b / 8] >> (b % 8) & 1 == 1;
+    }
+    let mut failures: Vec<J> = Vec::new();
+    let mut count = 0u64;
+    let mut nontrivial = 0u64;
+    let per_first = 256u64.pow(tail as u32 - 1);
+    let mut code = Vec::with_capacity(prefix.len() + tail + suffix.len());
+    for first in lo..hi {
+        for rest in 0..per_first {
+            code.clear();
+            code.extend_from_slice(&prefix);
+            code.push(first as u8);
+            for j in (0..tail - 1).rev() {
+                code.push((rest >> (8 * j)) as u8);
+            }
+            code.extend_from_slice(&suffix);
+            count += 1;
+            let want = ref_kinds(&code, &assigned);
+            if want.iter().any(|k| *k != b'O') {
+                nontrivial += 1;
+            }
+            let mut bad: Option<String> = None;
+            match lib_kinds(&code) {
+                Err(e) => bad = Some(format!("rejected:{e}")),
+                Ok((kinds, bytes, re)) => {
+                    if kinds.len() != code.len() {
+                        bad = Some(format!("entries:{}", kinds.len()));
+                    } else if re != code {
+                        bad = Some("roundtrip".into());
+                    } else {
+                        for i in 0..code.len() {
+                            let (kr, k) = (want[i], kinds[i]);
+                            let ok = match kr {
+                                b'T' => (k == b'I' || k == b'P' || k == b'N') && (k == b'N' || bytes[i] == code[i]),
+                                b'N' => k == b'N',
+                                _ => k == kr && bytes[i] == code[i],
+                            };
+                            if !ok {
+                                bad = Some(format!("kind:{}-as-{}@{}", kr as char, k as char, i));
+                                break;
+                            }
+                        }
+                    }
+                }
+            }
+            if let Some(what) = bad {
+                if failures.len() < 20 {
+                    failures.push(json!({"code": hex::encode(&code), "what": what}));
+                }
+            }
+        }
+    }
+    json!({"class": "ok", "count": count, "nontrivial": nontrivial, "failures": failures})
+}
+
 fn fresh_state(nvars: u64) -> TypeCheckerState {
     let mut state = TypeCheckerState::empty();
     for _ in 0..nvars {
